@@ -271,14 +271,14 @@ pub fn run_c19(ctx: &mut Ctx) {
 /// are open the per-address list must be strictly sorted, contain exactly
 /// the source addresses and show the number of open connections of each;
 /// after all have closed every count must return to zero.
-fn run_metrics_case(ctx: &mut Ctx, input: &Value) {
+fn run_metrics_case(ctx: &mut Ctx, input: &Value) -> bool {
     use std::net::{IpAddr, Ipv4Addr};
     let Some(plan) = input["clients"].as_array().and_then(|a| a.iter().map(|c| {
         Some((c["host"].as_u64()? as u8, c["conns"].as_u64()? as usize))
-    }).collect::<Option<Vec<(u8, usize)>>>()) else { ctx.count("bad-input"); return };
+    }).collect::<Option<Vec<(u8, usize)>>>()) else { ctx.count("bad-input"); return false };
     if plan.is_empty() || plan.len() > 8 || plan.iter().any(|p| p.1 == 0 || p.1 > 4 || p.0 == 0) {
         ctx.count("bad-input");
-        return
+        return false
     }
     let runtime = tokio::runtime::Builder::new_multi_thread()
         .worker_threads(3).enable_all().build().expect("runtime");
@@ -362,28 +362,35 @@ fn run_metrics_case(ctx: &mut Ctx, input: &Value) {
     ctx.count("e2e-cases");
     if results.iter().flatten().any(|r| *r != "served") {
         ctx.oracle_fail("e2e-connection-not-served", "a connection was not answered", input, observed.clone());
-        return
+        return true
     }
+    let mut failed = false;
     if !open_list.windows(2).all(|w| w[0].0 < w[1].0) {
+        failed = true;
         ctx.oracle_fail("e2e-list-not-strictly-sorted", "client list not strictly sorted", input, observed.clone());
     }
     let listed: std::collections::BTreeMap<IpAddr, usize> = open_list.iter().cloned().collect();
     if listed != expected || open_list.len() != expected.len() {
+        failed = true;
         ctx.oracle_fail("e2e-open-counts-wrong",
             &format!("while all connections are open the list is {} but the open connections are {expected:?}", show(&open_list)),
             input, observed.clone());
     }
     if open_global != expected.values().sum::<usize>() {
+        failed = true;
         ctx.oracle_fail("e2e-global-count-wrong", "global open-connection count differs from the open connections", input, observed.clone());
     }
     if closed_global != 0 || closed_list.iter().any(|x| x.1 != 0) {
+        failed = true;
         ctx.oracle_fail("e2e-counts-not-zero-after-close",
             &format!("after every connection was closed the counts are {} global {}", show(&closed_list), closed_global as isize),
             input, observed.clone());
     }
     if closed_list.iter().map(|x| x.0).collect::<Vec<_>>() != expected.keys().copied().collect::<Vec<_>>() {
+        failed = true;
         ctx.oracle_fail("e2e-address-lost", "an address disappeared from the list", input, observed);
     }
+    failed
 }
 
 pub fn run_c36e(ctx: &mut Ctx) {
@@ -392,16 +399,21 @@ pub fn run_c36e(ctx: &mut Ctx) {
         127.0.0.x (repeated and distinct), checked while open and after close; distinct = \
         distinct plans".into();
     if let Some(inputs) = ctx.replay_inputs() {
-        for input in inputs { run_metrics_case(ctx, &input) }
+        for input in inputs { run_metrics_case(ctx, &input); }
         return
     }
-    for input in ctx.corpus("C36e") { run_metrics_case(ctx, &input) }
+    // Failing cases wait for the deadline; a few of them are evidence enough.
+    let mut failures = 0;
+    for input in ctx.corpus("C36e") {
+        if run_metrics_case(ctx, &input) { failures += 1 }
+    }
     let n = ctx.budget(150, 1500);
     for _ in 0..n {
         let clients = ctx.rng.range(1, 5);
         let plan: Vec<Value> = (0..clients).map(|_| json!({
             "host": ctx.rng.range(1, 6), "conns": ctx.rng.range(1, 3)
         })).collect();
-        run_metrics_case(ctx, &json!({"clients": plan}));
+        if run_metrics_case(ctx, &json!({"clients": plan})) { failures += 1 }
+        if failures >= 3 { break }
     }
 }
